@@ -5,6 +5,7 @@
 
 #include <gudhi/Simplex_tree.h>
 #include <gudhi/graph_simplicial_complex.h>
+#include <gudhi/Rips_complex.h>
 
 namespace vf {
 
@@ -74,8 +75,9 @@ struct StModel {
   bool applicable(const bj::object& act) const {
     std::string op(act.at("op").as_string());
     if (op == "edge_as_flag") return Options::link_nodes_by_label;
-    if (op == "graph") return Label::identity;
+    if (op == "graph" || op == "rips") return Label::identity;   // boost vertex descriptors / point indices are the labels
     if (!Options::store_filtration) {
+      if (op == "rips") return false;
       if (op == "make_non_decreasing") return false;  // does not compile without stored values
       // a tree that stores no value behaves as if every value were 0
       auto it = act.find("f");
@@ -138,6 +140,31 @@ struct StModel {
       if constexpr (Options::store_filtration) out["ret"] = st.make_filtration_non_decreasing();
     } else if (op == "expansion") {
       st.expansion(static_cast<int>(act.at("d").to_number<std::int64_t>()));
+    } else if (op == "expansion_blockers") {
+      std::set<std::vector<int>> blocked;
+      for (auto& b : act.at("blocked_set").as_array()) blocked.insert(ints(b));
+      st.expansion_with_blockers(static_cast<int>(act.at("d").to_number<std::int64_t>()),
+                                 [&](SH sh) { return blocked.count(vertices_of(sh)) > 0; });
+    } else if (op == "rips") {
+      int n = static_cast<int>(act.at("n").to_number<std::int64_t>());
+      std::vector<std::vector<FV>> D(n, std::vector<FV>(n, FV(0)));
+      for (auto& e : act.at("d_set").as_array()) {
+        int a = static_cast<int>(e.as_object().at("a").to_number<std::int64_t>()), b = static_cast<int>(e.as_object().at("b").to_number<std::int64_t>());
+        D[a][b] = D[b][a] = tofv(e.as_object().at("w"));
+      }
+      FV t = tofv(act.at("t"));
+      int d = static_cast<int>(act.at("d").to_number<std::int64_t>());
+      if (act.at("form").as_string() == "matrix") {
+        std::vector<std::vector<FV>> lower(n);   // lower[i][j], j < i
+        for (int i = 0; i < n; ++i) for (int j = 0; j < i; ++j) lower[i].push_back(D[i][j]);
+        Gudhi::rips_complex::Rips_complex<FV> rips(lower, t);
+        rips.create_complex(st, d);
+      } else {
+        std::vector<int> pts(n);
+        for (int i = 0; i < n; ++i) pts[i] = i;
+        Gudhi::rips_complex::Rips_complex<FV> rips(pts, t, [&](int a, int b) { return D[a][b]; });
+        rips.create_complex(st, d);
+      }
     } else if (op == "edge_as_flag") {
       if constexpr (Options::link_nodes_by_label) {
         std::vector<SH> added;
